@@ -3,7 +3,7 @@ use std::io::Write;
 use std::time::Instant;
 
 fn usage() -> ! {
-    eprintln!("usage: bsv <PROP> <quick|thorough> [--seed N] [--out FILE] [--shard i/n] [--known a,b] [--replay FILE] [--sub NAME] [--order N] [--trace FILE]");
+    eprintln!("usage: bsv <PROP> <quick|thorough> [--seed N] [--out FILE] [--shard i/n] [--known a,b] [--replay FILE] [--sub NAME] [--order N] [--trace FILE] [--divide N] [--maxlen N]");
     std::process::exit(2);
 }
 
@@ -79,6 +79,8 @@ fn main() {
             "--known" => ctx.known = v.split(',').filter(|s| !s.is_empty()).map(|s| s.to_string()).collect(),
             "--sub" => ctx.only_sub = Some(v),
             "--order" => ctx.order = v.parse().unwrap_or(0),
+            "--divide" => ctx.divide = v.parse().unwrap_or(1),
+            "--maxlen" => ctx.maxlen = v.parse().unwrap_or(usize::MAX),
             "--trace" => {
                 let _ = bsv::obs::TRACE.set(v);
             }
